@@ -535,8 +535,8 @@ func builtinArrayLastIndexOf(call FunctionCall) Value {
 func builtinArrayEvery(call FunctionCall) Value {
 	thisObject := call.thisObject()
 	this := objectValue(thisObject)
+	length := int64(toUint32(thisObject.get(propertyLength)))
 	if iterator := call.Argument(0); iterator.isCallable() {
-		length := int64(toUint32(thisObject.get(propertyLength)))
 		callThis := call.Argument(1)
 		for index := range length {
 			if key := arrayIndexToString(index); thisObject.hasProperty(key) {
@@ -554,8 +554,8 @@ func builtinArrayEvery(call FunctionCall) Value {
 func builtinArraySome(call FunctionCall) Value {
 	thisObject := call.thisObject()
 	this := objectValue(thisObject)
+	length := int64(toUint32(thisObject.get(propertyLength)))
 	if iterator := call.Argument(0); iterator.isCallable() {
-		length := int64(toUint32(thisObject.get(propertyLength)))
 		callThis := call.Argument(1)
 		for index := range length {
 			if key := arrayIndexToString(index); thisObject.hasProperty(key) {
@@ -572,8 +572,8 @@ func builtinArraySome(call FunctionCall) Value {
 func builtinArrayForEach(call FunctionCall) Value {
 	thisObject := call.thisObject()
 	this := objectValue(thisObject)
+	length := int64(toUint32(thisObject.get(propertyLength)))
 	if iterator := call.Argument(0); iterator.isCallable() {
-		length := int64(toUint32(thisObject.get(propertyLength)))
 		callThis := call.Argument(1)
 		for index := range length {
 			if key := arrayIndexToString(index); thisObject.hasProperty(key) {
@@ -588,8 +588,8 @@ func builtinArrayForEach(call FunctionCall) Value {
 func builtinArrayMap(call FunctionCall) Value {
 	thisObject := call.thisObject()
 	this := objectValue(thisObject)
+	length := int64(toUint32(thisObject.get(propertyLength)))
 	if iterator := call.Argument(0); iterator.isCallable() {
-		length := int64(toUint32(thisObject.get(propertyLength)))
 		callThis := call.Argument(1)
 		values := make([]Value, length)
 		for index := range length {
@@ -607,8 +607,8 @@ func builtinArrayMap(call FunctionCall) Value {
 func builtinArrayFilter(call FunctionCall) Value {
 	thisObject := call.thisObject()
 	this := objectValue(thisObject)
+	length := int64(toUint32(thisObject.get(propertyLength)))
 	if iterator := call.Argument(0); iterator.isCallable() {
-		length := int64(toUint32(thisObject.get(propertyLength)))
 		callThis := call.Argument(1)
 		values := make([]Value, 0)
 		for index := range length {
@@ -627,10 +627,10 @@ func builtinArrayFilter(call FunctionCall) Value {
 func builtinArrayReduce(call FunctionCall) Value {
 	thisObject := call.thisObject()
 	this := objectValue(thisObject)
+	length := int64(toUint32(thisObject.get(propertyLength)))
 	if iterator := call.Argument(0); iterator.isCallable() {
 		initial := len(call.ArgumentList) > 1
 		start := call.Argument(1)
-		length := int64(toUint32(thisObject.get(propertyLength)))
 		index := int64(0)
 		if length > 0 || initial {
 			var accumulator Value
@@ -665,10 +665,10 @@ func builtinArrayReduce(call FunctionCall) Value {
 func builtinArrayReduceRight(call FunctionCall) Value {
 	thisObject := call.thisObject()
 	this := objectValue(thisObject)
+	length := int64(toUint32(thisObject.get(propertyLength)))
 	if iterator := call.Argument(0); iterator.isCallable() {
 		initial := len(call.ArgumentList) > 1
 		start := call.Argument(1)
-		length := int64(toUint32(thisObject.get(propertyLength)))
 		if length > 0 || initial {
 			index := length - 1
 			var accumulator Value
